@@ -72,4 +72,6 @@ Fixpoint spec_cmp (st : sstate) (steps : list (top * tobs)) : bool :=
 Definition c2spec (c : c2case) : nat :=
   let '(_, _, steps) := c in
   if disciplined (map fst steps) then (if spec_cmp s_init steps then 1 else 2) else 0.
-Definition c2ok_spec (c : c2case) : bool := c2ok c && negb (Nat.eqb (c2spec c) 2).
+(* every sequence the harness drives is node-shaped, so it has to satisfy the discipline predicate as well: a sequence
+   that does not would mean the predicate does not describe what the node loops do *)
+Definition c2ok_spec (c : c2case) : bool := c2ok c && Nat.eqb (c2spec c) 1.
